@@ -26,7 +26,7 @@ func init() {
 	register(&Prop{
 		ID:    "C06",
 		Level: "fault_enumeration",
-		Rule: "two case classes. (cut) a multi-command transcript (LOGIN/AUTHENTICATE exchanges, literals, APPEND, FETCH, IDLE, ...) sent by a conforming raw peer, with the client->server stream cut at one byte offset by FIN, RST or a stall that lasts until the server's own timeout; quick samples offsets, thorough enumerates every offset 0.." +
+		Rule: "two case classes. (cut) a multi-command transcript (LOGIN/AUTHENTICATE exchanges, literals, APPEND, FETCH, IDLE, ...) sent by a conforming raw peer, with the client->server stream cut at one byte offset by FIN, RST or a stall that lasts until the server's own timeout; quick samples offsets (1 in 5 right behind an IDLE line or a literal announcement), thorough enumerates every offset 0.." +
 			fmt.Sprint(c06SweepMax) + " (mod length+1) of each of " + fmt.Sprint(c06Corpus) + " corpus transcripts for each kind. (garbage) byte- and token-level mutations of such transcripts, raw garbage, parenthesis nesting up to 300000, absurd literal announcements, written blindly. " +
 			"Backend: counting stub Session or the real imapmemserver. Non-trivial: at least one byte was sent after the greeting. Distinct: distinct event-log hashes.",
 		Components:   "real: imapserver.Server/Conn, internal/imapwire, imapmemserver in one class (woven); stub: counting Session in the other class, scripted/byzantine raw peer, network, clock, scheduler",
